@@ -17,7 +17,7 @@ class AstSpec:
     def __init__(s, prog, height, fields=('a', 'b', 'zz'), hkeys=('x', 'y'), lit_spec=None, kinds=None, leaf=None, max_list=2):
         s.prog, s.height, s.fields, s.hkeys = prog, height, tuple(fields), tuple(hkeys)
         s.lit_spec = lit_spec or SY.DocSpec(depth=1, A=1, keys=('a',), strs=('', 'a'), nums=[0, 1])
-        s.kinds = kinds or (LEAF + COMPOUND); s.leaf = leaf or LEAF; s.max_list = max_list
+        s.kinds = list(kinds or (LEAF + COMPOUND)); s.leaf = list(leaf or LEAF); s.max_list = max_list
         s.vidx = {k: prog.decls.variant_index('Ast', k) for k, _ in prog.decls.enums['Ast']}
 
 class LazyAst:
@@ -48,6 +48,9 @@ class LazyAst:
                 v = ex.fresh(nm, 32); ex.assume(z3.And(v >= -LEXMAX, v <= LEXMAX)); return some(Int(v, 'i32'))
             vals['start'] = part('sstart'); vals['stop'] = part('sstop')
             v = ex.fresh('sstep', 32); ex.assume(z3.And(v >= -LEXMAX, v <= LEXMAX)); vals['step'] = Int(v, 'i32')
+        elif lab == 'Function':
+            # the total built-in `type` applied to the current node (leaf) or to a sub-expression: a part whose value on null is not null
+            vals['name'] = rstr('type'); vals['args'] = VecV([Cell(sym_ast(ex, spec, s.height - 1) if s.height > 0 else mk_ast(prog, 'Identity', offset=Int(0, 'usize')))])
         elif lab in ('Not', 'ObjectValues', 'Flatten'): vals['node'] = child()
         elif lab in ('Subexpr', 'Or', 'And', 'Projection'): vals['lhs'] = child(); vals['rhs'] = child()
         elif lab == 'Condition': vals['predicate'] = child(); vals['then'] = child()
